@@ -160,3 +160,17 @@ PROPS["C56"] = dict(
     outside="Stream's own I/O (Framed data channel, prost decode, read_buffer handling, drop_notifier) — only the State calls Stream makes are modelled, in Stream's order; inbound FIN/STOP_SENDING arriving while the other half is mid-close is treated as don't-care (the code drops the flag; the property text is silent)",
     stubs=[TRACING], assumptions=["the harness mirrors Stream's call protocol (read from stream.rs): barrier before every transition"], hooks=["hook: libp2p_webrtc_utils::verif_hooks (StateRepr mirror + Machine wrappers calling the private State methods)"],
 )
+
+PROPS["C57"] = dict(
+    group="wire", files=["c57.rs"],
+    explanation=(
+        "prost_codec::Codec::{encode,decode} on a real BytesMut with the crate's own message type: (1) a declared "
+        "length above a symbolic limit (< 300) is rejected from the 1- or 2-byte length prefix alone, an admissible one "
+        "waits without consuming; (2) encode->decode round trip at EVERY split point of the byte stream for payloads of "
+        "1 (quick) / 0 and 3 (thorough) symbolic bytes; (3) two frames back to back; (4) a 128-byte frame (two-byte "
+        "prefix) with the last 1-2 bytes missing waits and then decodes; (5) 3 (quick) / 5 (thorough) arbitrary bytes "
+        "with a symbolic limit <= 4: no panic, consumes nothing on Ok(None), decoded message within the limit."),
+    bounds="payloads <= 3 symbolic bytes (one 128-byte frame with concrete contents, probe message type); limits < 300; hostile input <= 5 bytes; unwind 12 (140 for the 128-byte frame)",
+    outside="prost's own field parser on hostile payload bytes (the hostile/128-byte harnesses instantiate the generic Codec with a probe message type whose merge only records the bytes handed over; the round-trip harnesses use the crate's real prost message); the FramedRead/FramedWrite plumbing around the codec; payloads > 3 symbolic bytes",
+    stubs=[TRACING, FMT], assumptions=[FORGET, "generic instantiations checked: Codec<prost_codec::proto::Message> (round trips) and Codec<Probe> (framing of hostile input)"], hooks=[],
+)
